@@ -9,6 +9,7 @@ import sys
 
 from rv import core
 from rv.vclock import VClock, patched
+from rv.faults import make_exception
 
 PID = "C14"
 LEVEL = "fault_enumeration"
@@ -139,7 +140,7 @@ def run_case(ctx, n):
                 if kind.endswith("raise_empty"):
                     raise Boom()
                 if kind.endswith("raise"):
-                    raise Boom("checkpoint exploded")
+                    raise make_exception(n + 5, "checkpoint exploded")
                 if kind.startswith("kill_in"):
                     if "killed" not in sampled:
                         sampled["killed"] = True
@@ -183,7 +184,7 @@ def run_case(ctx, n):
             if fault == "work_raises_empty":
                 raise Boom()            # an exception without a message
             if fault in ("work_raises", "nested_work_raises"):
-                raise Boom("work failed")
+                raise make_exception(n, "work failed")
             if fault == "kill_in_work":
                 ctx.count("kills_inside_work")
                 system.kill_operation("op", "killed from inside")
@@ -203,7 +204,7 @@ def run_case(ctx, n):
             if fault == "validate_assert":
                 assert res is None      # a bare assert: AssertionError without a message
             if fault in ("validate_raises", "nested_validate_raises"):
-                raise Boom("validator exploded")
+                raise make_exception(n + 3, "validator exploded")
             return fault not in ("validate_false", "nested_validate_false")
 
         # ---- model: which acquisitions succeed
